@@ -30,3 +30,127 @@ Proof. vm_compute. reflexivity. Qed.
 Example ex_index_enc_panic :
   M_index_header (repeat 0 (N.to_nat 65536)) = Panic.
 Proof. vm_compute. reflexivity. Qed.
+
+(* ---------- DICT integers: one value at each side of every size boundary ---------- *)
+From Gen Require Import C13.
+From C13 Require Import ModelDict ModelTables ModelLayout Proofs_layout.
+
+Example ex_dict_int_forms :
+  map M_dict_int_encode [0; 107; 108; -107; -108; 1131; 1132; -1131; -1132; 32767; 32768; -32768; -32769;
+                          2147483647; -2147483648]%Z =
+  [[139]; [246]; [247; 0]; [32]; [251; 0]; [250; 255]; [28; 4; 108]; [254; 255]; [28; 251; 148];
+   [28; 127; 255]; [29; 0; 0; 128; 0]; [28; 128; 0]; [29; 255; 255; 127; 255]; [29; 127; 255; 255; 255];
+   [29; 128; 0; 0; 0]].
+Proof. vm_compute. reflexivity. Qed.
+
+Example ex_dict_token : dict_token ([28; 251; 148] ++ [12; 255]) = Ok (TVal (DInt (-1132)), [12; 255]).
+Proof. vm_compute. reflexivity. Qed.
+
+Example ex_dict_decode :
+  M_dict_decode_top 0 [139; 247; 0; 5; 30; 160; 57; 98; 95; 12; 9] =
+  Ok [(5, [DInt 0; DInt 108]); (3081, [DReal {| d_neg := false; d_mant := 39625; d_nfrac := 6; d_exp := 0 |}])].
+Proof. vm_compute. reflexivity. Qed.
+
+(* reserved operand byte, operands without operator, truncated operand *)
+Example ex_dict_decode_err :
+  M_dict_decode_top 0 [22] = Err /\ M_dict_decode_top 0 [139] = Err /\ M_dict_decode_top 0 [28; 1] = Err.
+Proof. vm_compute. repeat split. Qed.
+
+(* ---------- DICT reals ---------- *)
+Example ex_real_layouts :
+  (M_real_layout false [3;9;6;2;5] (-1), M_real_layout true [1;2;5] 2, M_real_layout false [1] 10,
+   M_real_layout false [5] (-7), M_real_layout false [1;2] 4, M_real_layout false [1;2] 3,
+   M_real_layout false [1;2] 2, M_real_layout false [1;2] 0) =
+  ([160; 57; 98; 95], [225; 42; 95], [27; 159], [92; 143], [18; 0; 255], [18; 15], [18; 255], [161; 47]).
+Proof. vm_compute. reflexivity. Qed.
+
+(* the reserved nibble d, a missing terminator and "1e" are rejected *)
+Example ex_real_err :
+  M_real_decode [29; 255] = Err /\ M_real_decode [18] = Err /\ M_real_decode [27; 255] = Err.
+Proof. vm_compute. repeat split. Qed.
+
+(* 1e309 overflows a float64: ParseFloat reports ErrRange *)
+Example ex_real_overflow : M_real_decode [27; 48; 159] = Err /\ is_ok (M_real_decode [27; 48; 143]) = true.
+Proof. vm_compute. split; reflexivity. Qed.
+
+(* ---------- charset: each format is chosen by some list ---------- *)
+Example ex_charset_formats :
+  M_charset_encode [0; 5; 9; 12]%Z = Ok [0; 0; 5; 0; 9; 0; 12] /\
+  M_charset_encode [0; 1; 2; 3; 4; 5; 6; 7; 8; 9]%Z = Ok [1; 0; 1; 8] /\
+  M_charset_encode (0%Z :: map Z.of_N (seqN 1 600)) = Ok [2; 0; 1; 2; 87].
+Proof. vm_compute. repeat split. Qed.
+
+Example ex_charset_read :
+  M_charset_read 4 [0; 0;5; 0;9; 0;12; 77] = Ok ([0; 5; 9; 12], [77]) /\
+  M_charset_read 10 [1; 0;1; 8; 77] = Ok ([0; 1; 2; 3; 4; 5; 6; 7; 8; 9], [77]).
+Proof. vm_compute. split; reflexivity. Qed.
+
+(* identifiers beyond 16 bits, a missing .notdef, a range running past 0xFFFF,
+   a range overshooting the number of glyphs *)
+Example ex_charset_err :
+  M_charset_encode [0; 65536]%Z = Err /\ M_charset_encode [1; 2]%Z = Err /\
+  M_charset_read 5 [1; 255;254; 3] = Err /\ M_charset_read 3 [2; 0;1; 0;9] = Err.
+Proof. vm_compute. repeat split. Qed.
+
+(* ---------- encoding ---------- *)
+Definition ex_enc0 := set_nth (set_nth (set_nth (repeat 0 256) 65 1) 66 2) 97 1.
+Definition ex_enc1 := set_nth (set_nth (set_nth (set_nth (repeat 0 256) 65 1) 66 2) 67 3) 68 4.
+
+(* format 0 with one supplement (glyph 1 at codes 65 and 97); format 1 with one range *)
+Example ex_encoding_encode :
+  M_encoding_encode ex_enc0 [0; 34; 35]%Z = Ok [128; 2; 65; 66; 1; 97; 0; 34] /\
+  M_encoding_encode ex_enc1 [0; 34; 35; 36; 37]%Z = Ok [1; 1; 65; 3].
+Proof. vm_compute. split; reflexivity. Qed.
+
+Example ex_encoding_read :
+  M_encoding_read [128; 2; 65; 66; 1; 97; 0; 34; 9] [0; 34; 35]%Z = Ok (ex_enc0, [9]) /\
+  M_encoding_read [1; 1; 65; 3] [0; 34; 35; 36; 37]%Z = Ok (ex_enc1, []).
+Proof. vm_compute. split; reflexivity. Qed.
+
+(* glyph 2 encoded, glyph 1 not: the contiguity rule is violated *)
+Example ex_encoding_gap : M_encoding_encode (set_nth (repeat 0 256) 65 2) [0; 34; 35]%Z = Err.
+Proof. vm_compute. reflexivity. Qed.
+
+(* ---------- FDSelect ---------- *)
+Example ex_fdselect :
+  M_fdselect_encode [0;0;0;0;0;0;0;0;0;0;1;1;1;1;1;1;1;1;1;1] = [3; 0; 2; 0; 0; 0; 0; 10; 1; 0; 20] /\
+  M_fdselect_encode [0;1;0;1] = [0; 0; 1; 0; 1] /\
+  M_fdselect_read 20 2 [3; 0; 2; 0; 0; 0; 0; 10; 1; 0; 20; 7] =
+    Ok ([0;0;0;0;0;0;0;0;0;0;1;1;1;1;1;1;1;1;1;1], [7]).
+Proof. vm_compute. repeat split. Qed.
+
+(* a dictionary index beyond the private dictionaries; a wrong sentinel *)
+Example ex_fdselect_err :
+  M_fdselect_read 4 1 [0; 0; 1; 0; 1] = Err /\ M_fdselect_read 21 2 [3; 0; 2; 0; 0; 0; 0; 10; 1; 0; 20] = Err.
+Proof. vm_compute. split; reflexivity. Qed.
+
+(* ---------- the offset loop ---------- *)
+(* header, Name INDEX, Top DICT INDEX (charset, CharStrings, Private size and
+   offset), String INDEX, Global Subr INDEX, charset, CharStrings, empty Font
+   DICT INDEX, Private DICT (Subrs), Subrs INDEX *)
+Definition ex_secs : list section :=
+  [SFixed 4; SFixed 9;
+   SIndex [{| d_base := 20; d_ops := [OOffs 5; OOffs 6; OSize 8; OOffs 8] |}];
+   SLate 30; SFixed 2; SFixed 10; SFixed 200; SFixed 0;
+   SDict {| d_base := 12; d_ops := [ODiff 9 8] |}; SFixed 2].
+
+Example ex_layout_wf : Forall (wf ex_secs) (all_ops ex_secs) /\ (Z.of_N (sumN (smax ex_secs)) < 2147483648)%Z.
+Proof.
+  split; [|vm_compute; reflexivity].
+  repeat constructor; cbn; try lia.
+  exists {| d_base := 12; d_ops := [ODiff 9 8] |}. split; [reflexivity|]. repeat constructor; cbn; lia.
+Qed.
+
+Example ex_layout_result :
+  exists offs sizes, M_layout ex_secs = Ok (offs, sizes) /\
+    nth_offs offs 5 = 75%Z /\ nth_offs offs 8 = 285%Z /\ nth 2 sizes 0 = 30 /\ nth 8 sizes 0 = 13.
+Proof. eexists. eexists. vm_compute. repeat split. Qed.
+
+(* ---------- widths ---------- *)
+(* default width 500.5: lost by the old code, kept by the repaired one *)
+Example ex_width :
+  M_width_roundtrip_old 32800768 0 32800768 = 32768000%Z /\
+  M_width_roundtrip 32800768 0 32800768 = 32800768%Z /\
+  M_width_encode 0 6553600 (6553600 + 3 * 65536) = Some 196608%Z /\
+  M_width_encode 0 6553600 (6553600 + 1) = Some 1%Z.
+Proof. vm_compute. repeat split. Qed.
